@@ -40,6 +40,8 @@ struct Entry {
     serial: u64,
     align: u32,
     state: u8,
+    /// bit 0: made inside a library call during the current armed run (conservation accounting)
+    /// bit 1: made inside a library call at any time (the library may free / regrow its own blocks later)
     lib: u8,
     op: u16,
 }
@@ -240,11 +242,11 @@ unsafe impl GlobalAlloc for Tracker {
         let op = CUR_OP.with(|d| d.get());
         let armed = ARMED.load(Ordering::Relaxed);
         let serial = SERIAL.fetch_add(1, Ordering::Relaxed);
-        let lib = (armed && depth > 0) as u8;
+        let lib = ((armed && depth > 0) as u8) | (((depth > 0) as u8) << 1);
         lock();
         insert(Entry { addr: p as usize, size: layout.size(), serial, align: layout.align() as u32, state: ST_LIVE, lib, op });
         unlock();
-        if lib != 0 {
+        if lib & 1 != 0 {
             LIB_LIVE.fetch_add(1, Ordering::Relaxed);
             LIB_LIVE_BYTES.fetch_add(layout.size(), Ordering::Relaxed);
         }
@@ -274,12 +276,15 @@ unsafe impl GlobalAlloc for Tracker {
             push_viol(Viol { kind: VKind::LayoutMismatch, size: e.size, req_size: layout.size(), align: e.align, req_align: layout.align() as u32, op: e.op, in_lib: depth > 0 });
             // carry on with the block's own layout
         }
-        if depth > 0 && e.serial < call_start {
+        // a block that was live before this library call and was NOT made by the library itself (a cache or
+        // scratch buffer of the library may legitimately be freed or regrown in a later call) belongs to
+        // the caller: the source value, the sink, the harness
+        if depth > 0 && e.serial < call_start && e.lib & 2 == 0 {
             push_viol(Viol { kind: VKind::SourceFreed, size: e.size, req_size: layout.size(), align: e.align, req_align: layout.align() as u32, op: e.op, in_lib: true });
             unlock();
             return; // suppressed: the rightful owner will free it later
         }
-        if e.lib != 0 && e.serial >= RUN_START.load(Ordering::Relaxed) {
+        if e.lib & 1 != 0 && e.serial >= RUN_START.load(Ordering::Relaxed) {
             LIB_LIVE.fetch_sub(1, Ordering::Relaxed);
             LIB_LIVE_BYTES.fetch_sub(e.size, Ordering::Relaxed);
         }
@@ -353,7 +358,7 @@ pub fn disarm() -> RunReport {
         let start = RUN_START.load(Ordering::Relaxed);
         unsafe {
             for e in (*std::ptr::addr_of!(TABLE)).iter() {
-                if e.state == ST_LIVE && e.lib != 0 && e.serial >= start {
+                if e.state == ST_LIVE && e.lib & 1 != 0 && e.serial >= start {
                     if nleak < 8 {
                         leaked_tmp[nleak] = (e.size, e.op);
                         nleak += 1;
@@ -442,6 +447,22 @@ pub fn block_of(addr: usize) -> Option<(usize, usize, bool)> {
     // where the exact base address is known.
     lock();
     let r = unsafe { find(addr).map(|i| { let e = (*std::ptr::addr_of!(TABLE))[i]; (e.addr, e.size, e.state == ST_LIVE) }) };
+    unlock();
+    r
+}
+
+/// Slow path (full table scan): the live block containing `addr..addr+len`, if any.
+pub fn live_block_containing(addr: usize, len: usize) -> Option<(usize, usize)> {
+    lock();
+    let mut r = None;
+    unsafe {
+        for e in (*std::ptr::addr_of!(TABLE)).iter() {
+            if e.state == ST_LIVE && e.addr <= addr && addr + len <= e.addr + e.size {
+                r = Some((e.addr, e.size));
+                break;
+            }
+        }
+    }
     unlock();
     r
 }
